@@ -288,6 +288,11 @@ func (p *balloons) AllocateResources(c cache.Container) error {
 	// run on any CPUs.
 	if bln.AvailMilliCpus() < max(1, reqMilliCpus) {
 		if err := p.resizeBalloon(bln, max(1, reqMilliCpus)); err != nil {
+			if bln.ContainerCount() == 0 {
+				// Do not leave behind an empty balloon that was
+				// created only for this container.
+				p.freeBalloon(bln)
+			}
 			return balloonsError("resizing balloon %s failed: %w", bln.PrettyName(), err)
 		}
 	}
